@@ -11,7 +11,11 @@
    the existence query (transfer); for the re-run path through add(check_exists=True) (index.save)
    the full statement is REFUTED by the faithful model (C15_recover_check_exists_refuted, the known
    finding "C15:blessed-mismatch:probe-leftover-then-add-check-exists") and is proved for every
-   crash point at which no reflink probe is pending.  Comparison "modulo temp names" = equality of
+   crash point at which no reflink probe is pending; with EFFECTIVE VERIFICATION (per-call
+   verify=True: HashFileDB.add's pre-add check re-hashes every requested name and drops an
+   unprotected mismatch before the existence filter) the same re-run recovers at EVERY crash point
+   (C15_recover_verify) - which is why the pre-add check must be gated on the effective flag.
+   Comparison "modulo temp names" = equality of
    the final-name objects (bytes and protection); temp files and state rows (a cache) are ignored.
    The recover theorems assume a collision-free digest (H_inj) - satisfiable, see z_inj.
    Partial by nature: durability (fsync, power loss, torn rename) is an environment hypothesis -
@@ -20,7 +24,7 @@
    store->store transfer (directory object copied local->local) is covered by C15_prefix through
    [valid_trace] of its recorded traces, not by a generator theorem. *)
 From Coq Require Import NArith List Bool.
-From DvcData Require Import Base.Val Model.AddSteps Proofs.AddStepsProofs Proofs.AddStepsProgs Proofs.AddStepsRecover Proofs.AddStepsExamples.
+From DvcData Require Import Base.Val Model.AddSteps Proofs.AddStepsProofs Proofs.AddStepsProgs Proofs.AddStepsRecover Proofs.AddStepsVerify Proofs.AddStepsRecoverVerify Proofs.AddStepsExamples.
 Import ListNotations.
 Open Scope N_scope.
 
@@ -125,3 +129,37 @@ Theorem C15_recover_check_exists_restricted :
       (forall o, save_req bytes files dirs o -> good bytes H (run bytes empty p1 wc) o).
 Proof. exact save_recover_restricted. Qed.
 Print Assumptions C15_recover_check_exists_restricted.
+
+(* with effective verification (save(..., verify=True): pre-add check, copies, per-oid check +
+   protect, state) index.save is crash-safe at every prefix ... *)
+Theorem C15_prefix_save_verify :
+  forall (bytes : Type) (H : bytes -> oid) (kids : bytes -> list oid) (empty : bytes)
+         (part : bytes -> bytes),
+    kids empty = [] ->
+    forall t files dirs w n,
+      inv bytes H kids w -> w_pend w = None -> all_ok bytes H w ->
+      files_ok bytes H files -> (forall d, In d dirs -> dir_ok bytes H kids files d) ->
+      crash_inv bytes H kids
+        (crash bytes (run bytes empty (firstn n (save_gen bytes H empty part true false t files dirs w)) w)).
+Proof. exact save_verify_prefix_crash_inv. Qed.
+Print Assumptions C15_prefix_save_verify.
+
+(* ... and its re-run through add(check_exists=True) recovers at EVERY crash point n, the reflink-probe
+   window included (no side condition on n): the positive counterpart of the refuted theorem *)
+Theorem C15_recover_verify :
+  forall (bytes : Type) (H : bytes -> oid) (kids : bytes -> list oid) (empty : bytes)
+         (part : bytes -> bytes),
+    kids empty = [] ->
+    (forall b b', base (H b) = base (H b') -> b = b') ->
+    forall t t' files dirs w0 n,
+      inv bytes H kids w0 -> w_pend w0 = None -> all_ok bytes H w0 ->
+      files_ok bytes H files -> (forall d, In d dirs -> dir_ok bytes H kids files d) ->
+      let p0 := save_gen bytes H empty part true false t files dirs w0 in
+      let wc := crash bytes (run bytes empty (firstn n p0) w0) in
+      let p1 := save_gen bytes H empty part true false t' files dirs wc in
+      valid_trace bytes H kids empty p1 wc = true /\
+      (forall m, crash_inv bytes H kids (crash bytes (run bytes empty (firstn m p1) wc))) /\
+      store_eq bytes (run bytes empty p1 wc) (run bytes empty p0 w0) /\
+      (forall o, save_req bytes files dirs o -> good bytes H (run bytes empty p1 wc) o).
+Proof. exact save_verify_recover. Qed.
+Print Assumptions C15_recover_verify.
